@@ -113,6 +113,33 @@ CHECKS.update({
         design="4/C08"),
 })
 
+CHECKS.update({
+    "C09": dict(
+        level="model_checking",
+        technique="exhaustive enumeration of assignment histories (all single assignments over per-property value alphabets, all ordered pairs on one object; thorough: cross-object pairs and triples) from a declarative catalogue, executed on real objects of a workbench deck and of corpus decks, against a last-assigned-value reference model incl. sibling readings and save/re-open",
+        text="111 of the 139 settable properties found by reflection (26 are decided by C18/C04/C17/C06, 2 listed as uncovered) x boundary / quantum-neighbour / interior / None / wrong-typed values: read-back within the storage quantum through the same and a freshly located proxy, documented None reading, TypeError/ValueError for out-of-domain values, sibling readings outside the independence group unchanged, and the same readings after a per-case save/re-open; 9.5k (thorough 33k) histories, 15k (71k) checked transitions.",
+        note="Trusted: the catalogue mc/props/c09_catalog.py, written from the docstrings (weaker reading where a domain is undocumented). A rejected assignment that changes only the XML but no reading is counted, not reported (C03/C11 judge the XML). Truncation inside one quantum is by definition invisible.",
+        design="4/C09 + Appendix A"),
+    "C14": dict(
+        level="model_checking",
+        technique="explicit-state BFS (snapshot mode: deepcopy of the a:tbl subtree, dedup on c14n) over merge / split / foreign-merge / size-assignment sequences executed on real tables, against a region-grid reference model",
+        text="Every ordered pair of cells as a merge (all corner orientations, incl. a==b), split of every cell, merges into a second table, row-height / column-width assignments: depth 3 on all table shapes up to 3x3 and depth 2 up to 4x4 (thorough: depth 3 up to 4x4), nine (width, height) divisibility variants, placeholder-inserted tables, and depth 2 from every single-rectangle state of a 6x6 table: 60k states / 458k transitions (thorough 104k / 2.1M), each compared with the model (cell counts, disjoint rectangular regions, origin/spanned flags and spans, refusals leaving c14n unchanged, text in reading order, frame size = sums).",
+        note="Trusted: mc/oracles/table_ref.py; bare lxml reads of the table. The statement's random 12x12 sampling is a different technique and is replaced by the exhaustive 6x6 layer.",
+        design="4/C14"),
+    "C15": dict(
+        level="model_checking",
+        technique="exhaustive enumeration of generated images (format x size x dpi x file-name/hand-over variant x requested size) through the real add_picture, plus explicit-state BFS (replay mode) over picture / placeholder / movie-poster / OLE-icon / save+re-open histories with a multiset-of-byte-strings reference model, judged on the saved zip by an independent reader",
+        text="629 generated images (PNG/JPEG/GIF/BMP/TIFF, 17 sizes, 9 dpi settings read back from the file by hand-written header parsers) x 6 hand-over variants x 4 size requests = 15k add_picture evaluations (thorough 178k), and all histories to depth 3 (thorough 4) over 13 operations from 3 initial decks: every state has exactly one media part per distinct byte string, byte-exact, with the extension/content type of the real format, native size = pixels x 914400 / dpi (72 when absent or implausible), aspect ratio within 1 EMU.",
+        note="Trusted: mc/oracles/image_ref.py (own PNG pHYs / JFIF / BMP / TIFF readers, cross-checked against Pillow), mc/oracles/opc_ref.py. The generator's request is the truth about the format (not Pillow's detection).",
+        design="4/C15"),
+    "C17": dict(
+        level="model_checking",
+        technique="explicit-state search on the real shapes: full closure of the connector end-point state graph; depth-bounded exhaustive addition histories into nested groups; exhaustive freeform pen enumeration; each against a geometric reference model",
+        text="Connector: all 256 creations x 2 scales and the complete reachable graph under 20 end-point assignments (1800 states, 36k transitions, no depth bound). Groups: 9 member kinds x 3x3 positions x 2 sizes into any group of the tree, all histories to length 2 and restricted prefixes to length 3 (thorough 4), nesting to depth 4/5, every group's off/ext/chOff/chExt = bounding box of members after every addition. Freeform: 223k (thorough 3.3M) pens (negative/fractional/repeated vertices, second contour, 4 scales, 2 origins): position/size = scaled bounding box + origin within 1 EMU, all points inside the path extents.",
+        note="Trusted: the geometric model in mc/props/c17.py; bare lxml reads of a:xfrm / a:path. The group alphabet is full only for the last operation of histories longer than 2 (stated in evidence).",
+        design="4/C17"),
+})
+
 NOT_BUILT = "check not completed yet (machinery under construction; see DESIGN.md section 8)"
 
 def main():
